@@ -69,6 +69,21 @@ def check(inp):
                                                  growth_factor=2, in_memory=inp["src"] == "object-inmem")
             return _tbl(s)
     if inp["what"] == "streams":
+        # successive prior draws on ONE generator continue its stream (they are not the same numbers again), and the generator is advanced
+        g = np.random.default_rng(inp["seed"])
+        st0 = g.bit_generator.state["state"]["state"]
+        p1 = _tbl(prior.sample(size=9, rng=g))
+        st1 = g.bit_generator.state["state"]["state"]
+        p2 = _tbl(prior.sample(size=9, rng=g))
+        if p1 == p2:
+            bad("successive-prior-draws-on-one-generator-continue-the-stream")
+        if st0 == st1:
+            bad("prior-draws-are-made-on-the-handed-generator", note="the generator's state did not change")
+        jk = TheJoker(prior, rng=np.random.default_rng(inp["seed"]))
+        l1 = jk.rejection_sample(data, 40, return_all_logprobs=True, in_memory=True)[1]
+        l2 = jk.rejection_sample(data, 40, return_all_logprobs=True, in_memory=True)[1]
+        if np.array_equal(np.asarray(l1), np.asarray(l2)):
+            bad("successive-calls-draw-fresh-prior-samples")
         joker = TheJoker(prior, rng=np.random.default_rng(inp["seed"]))
         a = joker.rejection_sample(data, path, n_batches=3, n_linear_samples=3)
         b = joker.rejection_sample(data, path, n_batches=3, n_linear_samples=3)
